@@ -135,6 +135,9 @@ def main(argv=None):
         with ctxm.Pool(min(args.jobs, len(jobs))) as pool:
             for r in pool.imap_unordered(_worker, jobs, chunksize=1):
                 results.append(r)
+                if os.environ.get("VERIF_VERBOSE"):
+                    print(f"  done {r.get('name')} paths={r.get('paths')} wall={r.get('wall', 0):.1f}s inconclusive={len(r.get('inconclusive', []))} "
+                          f"viol={len(r.get('violations', []))} eng={len(r.get('engine_errors', []))}", flush=True)
     extra_results = []
     if extra is not None:
         extra_results = extra(tier, seed, tuple(active))
